@@ -11,6 +11,23 @@ LEVEL_NOTE = ('Trusted: Coq 8.16.1 kernel (vm_compute used, no native_compute), 
               'exercised, not modelled. See DESIGN.md section 3.')
 
 CHECKS = {
+    'C01': dict(
+        text='Proof (all particles, all words, unbounded) that the oracle `accepts` - Brzozowski derivatives with '
+             'interleave on the compiled particle - decides the XSD content-model language defined from the XSD text, '
+             'including XSD 1.1 open content; the implementation is tied to it by exhaustive (one-group family, words '
+             'up to length 5) and seeded random differential runs on deterministic models. The visitor algorithm of '
+             'the implementation is not itself verified and is known to be wrong on families of models (F-C01).',
+        technique='Coq proof that a derivative matcher decides the declarative XSD particle language; '
+                  'model-vs-implementation verdict vectors compared inside Coq (vm_compute)',
+        design='5/C01'),
+    'C15': dict(
+        text='Proof that the decision procedure upa_check (certificate-checked closure of ACI-normalised derivatives '
+             'over the marked alphabet) answers true exactly for models satisfying the declarative Unique Particle '
+             'Attribution statement (and edc_check for Element Declarations Consistent); the build verdict of both '
+             'schema classes is compared with it on exhaustive small and seeded random models. The syntactic test of '
+             'the implementation is not verified and is known unsound and incomplete (F-C15a/b).',
+        technique='Coq proof of a UPA decision procedure against declarative UPA; differential build verdicts',
+        design='5/C15'),
     'C16': dict(
         text='Proof (all namespace lists, both versions) that the modelled union / intersection / '
              'is_restriction / is_overlap coincide with set union / intersection / inclusion / non-empty '
